@@ -1990,16 +1990,22 @@ HalfFaceHandle TopologyKernel::find_halfface(const std::vector<VertexHandle>& _v
 
     assert(v0.is_valid() && v1.is_valid() && v2.is_valid());
 
-    HalfEdgeHandle he0 = find_halfedge(v0, v1);
-    if(!he0.is_valid()) return InvalidHalfFaceHandle;
-    HalfEdgeHandle he1 = find_halfedge(v1, v2);
-    if(!he1.is_valid()) return InvalidHalfFaceHandle;
+    // There may be several (parallel) halfedges v0->v1 and v1->v2: try all combinations
+    for(VertexOHalfEdgeIter voh0_it = voh_iter(v0); voh0_it.valid(); ++voh0_it) {
+        if(to_vertex_handle(*voh0_it) != v1) continue;
+        for(VertexOHalfEdgeIter voh1_it = voh_iter(v1); voh1_it.valid(); ++voh1_it) {
+            if(to_vertex_handle(*voh1_it) != v2) continue;
 
-    std::vector<HalfEdgeHandle> hes;
-    hes.push_back(he0);
-    hes.push_back(he1);
+            std::vector<HalfEdgeHandle> hes;
+            hes.push_back(*voh0_it);
+            hes.push_back(*voh1_it);
 
-    return find_halfface(hes);
+            HalfFaceHandle hfh = find_halfface(hes);
+            if(hfh.is_valid()) return hfh;
+        }
+    }
+
+    return InvalidHalfFaceHandle;
 }
 
 //========================================================================================
@@ -2059,8 +2065,11 @@ HalfFaceHandle TopologyKernel::find_halfface_extensive(const std::vector<VertexH
 
   assert(v0.is_valid() && v1.is_valid());
 
-  HalfEdgeHandle he0 = find_halfedge(v0, v1);
-  if(!he0.is_valid()) return InvalidHalfFaceHandle;
+  // There may be several (parallel) halfedges v0->v1: try all of them
+  for(VertexOHalfEdgeIter voh_it = voh_iter(v0); voh_it.valid(); ++voh_it)
+  {
+  if(to_vertex_handle(*voh_it) != v1) continue;
+  const HalfEdgeHandle he0 = *voh_it;
 
   for(HalfEdgeHalfFaceIter hehf_it = hehf_iter(he0); hehf_it.valid(); ++hehf_it)
   {
@@ -2088,6 +2097,7 @@ HalfFaceHandle TopologyKernel::find_halfface_extensive(const std::vector<VertexH
 
     if (all_vertices_found)
       return *hehf_it;
+  }
   }
 
   return InvalidHalfFaceHandle;
